@@ -179,6 +179,7 @@ func checkC08(c C08Case, rec *obs.Recorder) *obs.Violation {
 	var blocks []*c08Block
 	var hist []string
 	sharedUnmarshaler := &biscuit.Unmarshaler{Symbols: &datalog.SymbolTable{}}
+	sharedBase := &datalog.SymbolTable{}
 	derivations := map[int]int{} // parent token -> number of derivations (builders, blocks, tokens)
 	siblingObserved := false
 
@@ -272,7 +273,22 @@ func checkC08(c C08Case, rec *obs.Recorder) *obs.Violation {
 				b.Facts = append(b.Facts, c08Fact(tag, i))
 			}
 			hist = append(hist, fmt.Sprintf("%d:build", step))
-			tok, err := bridge.BuildAuthority(priv, rng, b, nil)
+			var tok *biscuit.Biscuit
+			var err error
+			if step%2 == 0 {
+				// biscuit.New with a base symbol table the caller keeps and passes again for the next
+				// token: it stays the caller's (empty) table
+				bb := biscuit.NewBlockBuilder(sharedBase.Clone())
+				if err := bridge.AddBlockTo(bb, b); err != nil {
+					return obs.Violf("history [%s]: build: %v", strings.Join(hist, "; "), err)
+				}
+				tok, err = biscuit.New(rng, priv, sharedBase, bb.Build())
+				if len(*sharedBase) != 0 {
+					return obs.ViolK("base-table", "history [%s]: biscuit.New wrote %q into the base symbol table its caller passed", strings.Join(hist, "; "), []string(*sharedBase))
+				}
+			} else {
+				tok, err = bridge.BuildAuthority(priv, rng, b, nil)
+			}
 			if err != nil {
 				return obs.Violf("history [%s]: build: %v", strings.Join(hist, "; "), err)
 			}
